@@ -31,6 +31,9 @@ func H_C20_ipv4_subnet() {
 	mask := uint32((uint64(0xFFFFFFFF) << (32 - p)) & 0xFFFFFFFF)
 	vCheck(m.ToUInt32() == n&mask, "ipv4/ComputeMask-is-network-address")
 	vCheck(m.MaskBits == net.MaskBits, "ipv4/ComputeMask-keeps-prefix")
+	// the queries are read-only: the address they were asked about is unchanged, and asking again gives the same answers
+	vCheck(net.ToUInt32() == n && addr.ToUInt32() == a, "ipv4/queries-leave-their-operands-unchanged")
+	vCheck(addr.IsInSubnet(net) == want, "ipv4/IsInSubnet-same-answer-after-ComputeMask")
 	vCover("end")
 }
 
